@@ -48,6 +48,10 @@ def _work(task):
             out["recheck"] = (res2.hash == res.hash and not res2.viol)
             if not out["recheck"]:
                 out["plan"] = plan
+                if os.environ.get("VERIF_DEBUG_NONDET"):
+                    with open(os.environ["VERIF_DEBUG_NONDET"] + ".%d" % idx, "w") as f:
+                        f.write("\n".join(p.transcript(res)) + "\n=====REPLAY=====\n" + "\n".join(p.transcript(res2)) +
+                                "\n%s %s %r\n" % (res.hash, res2.hash, res2.viol))
         return out
     except Exception:
         return {"idx": idx, "crash": traceback.format_exc(), "viol": [], "hash": None, "infra": "controller exception"}
@@ -312,3 +316,16 @@ def abbreviate(plan, maxops=40):
     if len(s) > 6000:
         return s[:6000] + "...(truncated)"
     return p
+
+
+def hashes(prop, spec, seed, n, jobs, tier="quick"):
+    """Determinism proof helper: history hash of runs 0..n-1 (one line each)."""
+    opts = dict(spec.get("opts", {}))
+    opts["prop"] = prop
+    tasks = [(spec["profile"], prop, seed, i, tier, opts, False) for i in range(n)]
+    ctx = mp.get_context("fork")
+    res = {}
+    with ctx.Pool(jobs) as pool:
+        for out in pool.imap_unordered(_work, tasks, chunksize=2):
+            res[out["idx"]] = "%s %s" % (out.get("hash"), ",".join("%s/%s" % vkey(v) for v in out["viol"]) or "-")
+    return [res[i] for i in range(n)]
